@@ -15,7 +15,8 @@ prim('kv_key', 'str -> str', native=L.kv_key, args=['t'],
 prim('kv_value', 'str -> Opt[str]', native=L.kv_value, args=['t'],
      axioms=["implies(result is not None, val(result) != '' and first_word(val(result)) != '')"])
 prim('sec_ok', 'str -> bool', native=L.sec_ok)
-prim('sec_type', 'str -> str', native=L.sec_type, args=['t'], axioms=["implies(sec_ok(t), result != '')"])
+prim('sec_type', 'str -> str', native=L.sec_type, args=['t'],
+     axioms=["implies(sec_ok(t), result != '')", "result.lower().rstrip() == result.lower()"])
 prim('sec_name', 'str -> Opt[str]', native=L.sec_name, args=['t'],
      axioms=["implies(result is not None, val(result) != '')"])
 
@@ -116,7 +117,7 @@ contract('cfgparser.ZConfigParser.nextline', returns='Tuple[bool, Opt[str]]',
                   Clause('implies(not result[0], result[1] == old(self.file.lines)[0].strip() and '
                          'self.lineno == old(self.lineno) + 1 and self.file.lines == old(self.file.lines)[1:])',
                          carries='C03,C08,C15', label='stripped-line-and-count'),
-                  Clause('implies(result[0], self.lineno == old(self.lineno))'),
+                  Clause('implies(result[0], self.lineno == old(self.lineno) and self.file.lines == old(self.file.lines))'),
                   Clause("implies(not result[0], '\\n' not in val(result[1]))", label='single-line')])
 
 POS = [Clause('exc.has_lineno and exc.lineno == self.lineno and exc.url == self.url', carries='C08', label='position')]
@@ -203,3 +204,81 @@ contract('cfgparser.ZConfigParser.handle_include',
                      call='self.context.includeConfiguration', carries='C05,C06,C18',
                      label='include-current-section-same-defines-url-relative-to-includer')],
          raises=[Raise('ZConfig.ConfigurationError+', carries='C07', label='config-error')])
+
+# ---- sections -------------------------------------------------------------------------------------------------
+prim('hdr_empty', 'str -> bool', native=lambda rest: rest[-1:] == '/', smt=None)
+
+
+contract('cfgparser.ZConfigParser.start_section',
+         params={'section': 'Ref[Sink]', 'rest': 'str'}, returns='Ref[Sink]',
+         requires=[Clause("'\\n' not in rest", label='single-line')],
+         modifies=['self.stack'] + CTX_MOD,
+         asserts=[At("sec_ok(hdr_text(old(rest))) and args[0] == section and "
+                     "args[1] == sec_type(hdr_text(old(rest))).lower() and "
+                     "args[2] == lower_opt(sec_name(hdr_text(old(rest))))",
+                     call='self.context.startSection', carries='C03,C15', label='opens-lowercased-type-and-name'),
+                  At("old(rest)[-1:] == '/' and args[1] == sec_type(hdr_text(old(rest))).lower()",
+                     call='self.end_section', carries='C03,C15', label='empty-form-closes-the-section-it-opened')],
+         ensures=[Clause('sec_ok(hdr_text(rest))', carries='C03', label='well-formed-header'),
+                  Clause("implies(rest[-1:] == '/', result == section and self.stack == old(self.stack))",
+                         carries='C03,C15', label='empty-form-leaves-nesting-unchanged'),
+                  Clause("implies(rest[-1:] != '/', self.stack == old(self.stack) + "
+                         "[(sec_type(hdr_text(rest)).lower(), lower_opt(sec_name(hdr_text(rest))), section)])",
+                         carries='C03', label='pushes-open-section')],
+         raises=[Raise('ZConfig.ConfigurationError+', then=[
+             Clause("exc.has_lineno and exc.lineno is not None and (exc.lineno == self.lineno or "
+                    "(isa(exc, 'ZConfig.DataConversionError') and val(exc.lineno) >= 0))", carries='C08',
+                    label='position-line'),
+             Clause("exc.url == self.url or (isa(exc, 'ZConfig.DataConversionError') and exc.url is not None "
+                    "and val(exc.url) != '')", carries='C08', label='position-url'),
+             Clause('self.stack == old(self.stack)', label='stack-unchanged')], carries='C08', label='config-error')])
+
+# a conversion error found when a section is closed keeps the position of the VALUE that failed
+# (recorded when the value was read); every other error is reported at the closing line
+POS_CLOSE = [Clause("exc.has_lineno and exc.lineno is not None and (exc.lineno == self.lineno or "
+                    "(isa(exc, 'ZConfig.DataConversionError') and val(exc.lineno) >= 0))", carries='C08',
+                    label='position-line'),
+             Clause("exc.url == self.url or (isa(exc, 'ZConfig.DataConversionError') and exc.url is not None "
+                    "and val(exc.url) != '')", carries='C08', label='position-url')]
+
+contract('cfgparser.ZConfigParser.end_section',
+         params={'section': 'Ref[Sink]', 'rest': 'str'}, returns='Ref[Sink]',
+         modifies=['self.stack'] + CTX_MOD,
+         asserts=[At("len(old(self.stack)) > 0 and args[0] == old(self.stack)[-1][2] and "
+                     "args[1] == rest.rstrip().lower() and args[1] == old(self.stack)[-1][0] and "
+                     "args[2] == old(self.stack)[-1][1] and args[3] == section",
+                     call='self.context.endSection', carries='C03,C15', label='closes-innermost-open-section')],
+         ensures=[Clause('len(old(self.stack)) > 0 and rest.rstrip().lower() == old(self.stack)[-1][0]',
+                         carries='C03,C15', label='closer-matches-innermost-type'),
+                  Clause('self.stack == old(self.stack)[:-1] and result == old(self.stack)[-1][2]',
+                         carries='C03', label='pops')],
+         raises=[Raise('ZConfig.ConfigurationError+', then=POS_CLOSE + [
+             Clause('implies(len(old(self.stack)) > 0, self.stack == old(self.stack)[:-1])', label='popped'),
+             Clause('implies(len(old(self.stack)) == 0, self.stack == old(self.stack))', label='untouched-when-empty')],
+             carries='C08', label='config-error')])
+
+# ---- the line loop -----------------------------------------------------------------------------------------------
+PARSE_MOD = ['self.lineno', 'self.stack', 'self.file.lines', 'self.defines.items'] + CTX_MOD
+contract('cfgparser.ZConfigParser.parse',
+         params={'section': 'Ref[Sink]'},
+         requires=[Clause('len(self.stack) == 0', carries='C06', label='own-empty-stack')],
+         modifies=PARSE_MOD,
+         asserts=[At("line_class(val(line)) == K_SKIP", stmt='Pass', nth=0, carries='C03', label='skip-only-blank-and-comment'),
+                  At("line_class(val(line)) == K_CLOSE and val(line)[-1] == '>' and args[0] == section and "
+                     "args[1] == val(line)[2:-1]", call='self.end_section', carries='C03', label='closer-dispatch'),
+                  At("line_class(val(line)) == K_OPEN and val(line)[-1] == '>' and args[0] == section and "
+                     "args[1] == val(line)[1:-1]", call='self.start_section', carries='C03', label='opener-dispatch'),
+                  At("line_class(val(line)) == K_DIRECTIVE and args[0] == section and args[1] == val(line)[1:]",
+                     call='self.handle_directive', carries='C03', label='directive-dispatch'),
+                  At("line_class(val(line)) == K_KV and args[0] == section and args[1] == val(line)",
+                     call='self.handle_key_value', carries='C03', label='keyvalue-dispatch')],
+         ensures=[Clause('len(self.stack) == 0', carries='C03,C06', label='all-sections-closed'),
+                  Clause('len(self.file.lines) == 0', carries='C03', label='read-to-the-end')],
+         raises=[Raise('ZConfig.ConfigurationError+', carries='C07', label='config-error')],
+         loops=[Loop(invariant=[Clause('done == (line is None)', label='done-iff-no-line'),
+                                Clause("implies(line is not None, '\\n' not in val(line))", label='single-line'),
+                                Clause('implies(done, len(self.file.lines) == 0)', label='done-at-eof'),
+                                Clause('self.lineno >= 0')],
+                     decreases='len(self.file.lines) + (0 if done else 1)',
+                     locals={'done': 'bool', 'line': 'Opt[str]', 'section': 'Ref[Sink]'},
+                     modifies=PARSE_MOD)])
